@@ -222,6 +222,16 @@ let () = run_protocol (fun case impl ->
              | Some a, Some b -> (match find_items a mt, find_items b mt with
                                   | Some p, Some q -> not (gdef_eqb p q) | _, _ -> false)
              | _, _ -> false)
+          | "tz" ->
+            let mt = bytes_of_str (next t) in
+            let rec nums (x : ritem) : n list =
+              (match x with RField (k, _, _, _) -> [k] | RGroup (k, _, _, sub) -> k :: List.concat_map nums sub) in
+            (match si.xs, si.spec with
+             | Some x, Some m ->
+               (match find_items x mt with
+                | Some its -> List.exists (fun k -> lossy_of m.mt_tables k) (List.concat_map nums its)
+                | None -> false)
+             | _, _ -> false)
           | "noclass" -> (match si.spec with Some m -> uses_undefined_class m | None -> false)
           | _ -> failwith "Q") in
        (b01 ans, true, true)
